@@ -2,7 +2,7 @@
 """Re-runs the checks that matter for every kept seeded change (its own property's
 check, every check that caught it before, every check of its first-contact record)
 against the current machinery and rewrites detected_by / fingerprints in meta.json.
-usage: seed_refresh.py <shard> <shards> [--dest DIR]   (confirmation steps are not repeated)"""
+usage: seed_refresh.py <shard> <shards> [--dest DIR] [--only SUBSTRING]   (confirmation steps are not repeated)"""
 import glob, json, os, subprocess, sys
 
 V = os.path.dirname(os.path.abspath(__file__))
@@ -15,7 +15,8 @@ def main():
     for f in glob.glob(os.path.join(V, "seeded", "ROUND*_FIRST_CONTACT.json")):
         first.update(json.load(open(f))["results"])
     head = subprocess.run(["git", "-C", V, "rev-parse", "--short", "HEAD"], capture_output=True, text=True).stdout.strip()
-    metas = sorted(glob.glob(os.path.join(V, "seeded", "C*", "meta.json")))
+    only = sys.argv[sys.argv.index("--only") + 1] if "--only" in sys.argv else ""
+    metas = sorted(f for f in glob.glob(os.path.join(V, "seeded", "C*", "meta.json")) if only in os.path.basename(os.path.dirname(f)))
     for i, f in enumerate(metas):
         if i % shards != shard:
             continue
